@@ -234,10 +234,22 @@ pub fn exec_mat(ops: Vec<Op>, seed: u64) -> Case {
         };
         let mut nmatches = 0usize;
         // single patterns derived from tracked terms
-        for round in 0..6 {
+        for round in 0..8 {
             // rounds 4 and 5: the non-linear patterns `(k ?v0 ?v0)` / `(add ?v0 ?v0)` — a repeated variable has to be bound to
             // the same invocation up to the class symmetries, not merely to the same class with the same slot set
-            let (p0, mut vars): (APat, Vec<(String, ATerm)>) = if round >= 4 {
+            let (p0, mut vars): (APat, Vec<(String, ATerm)>) = if round >= 6 {
+                // rounds 6 and 7: patterns whose binder shadows a name already in use — `(lam $x (lam $x ?v0))` and
+                // `(app (var $x) (lam $x ?v0))`; the two positions hold different slots in most terms, so the variable must not
+                // be reported with both renamed to `$x`
+                let lam = |x: u32, b: APat| APat::Node(0, vec![CField::Bind(x, Box::new(CField::App))], vec![b]);
+                let x = PSLOTS[0];
+                let p = if round == 6 {
+                    lam(x, lam(x, APat::PVar("v0".into())))
+                } else {
+                    APat::Node(1, vec![CField::App, CField::App], vec![APat::Node(2, vec![CField::Slot(x)], vec![]), lam(x, APat::PVar("v0".into()))])
+                };
+                (p, vec![("v0".to_string(), terms[0].clone())])
+            } else if round >= 4 {
                 let op = if round == 4 { 14 } else { 4 };
                 (APat::Node(op, vec![CField::App, CField::App], vec![APat::PVar("v0".into()), APat::PVar("v0".into())]), vec![("v0".to_string(), terms[0].clone())])
             } else {
@@ -253,6 +265,38 @@ pub fn exec_mat(ops: Vec<Op>, seed: u64) -> Case {
             rng.shuffle(&mut img);
             let sl2 = sl.clone();
             let p = rename_apat(&p0, &move |c| sl2.iter().position(|x| *x == c).map(|i| img[i % img.len()]).unwrap_or(c));
+            // a quarter of the derived patterns with a binder: the binder re-uses a slot name that is already in use in the
+            // pattern (an enclosing binder of the same name, or a free occurrence elsewhere) — shadowing is legal in patterns
+            let p = if round < 4 && rng.chance(1, 4) {
+                fn binders(p: &APat, out: &mut Vec<u32>) {
+                    fn f(c: &CField, out: &mut Vec<u32>) {
+                        if let CField::Bind(s, x) = c {
+                            if !out.contains(s) {
+                                out.push(*s);
+                            }
+                            f(x, out)
+                        }
+                    }
+                    if let APat::Node(_, fields, cs) = p {
+                        fields.iter().for_each(|c| f(c, out));
+                        cs.iter().for_each(|c| binders(c, out));
+                    }
+                }
+                let mut bs = Vec::new();
+                binders(&p, &mut bs);
+                let mut all = Vec::new();
+                pat_slots(&p, &mut all);
+                if !bs.is_empty() && all.len() >= 2 {
+                    let b0 = bs[rng.below(bs.len())];
+                    let others: Vec<u32> = all.iter().copied().filter(|x| *x != b0).collect();
+                    let s0 = others[rng.below(others.len())];
+                    rename_apat(&p, &move |c| if c == b0 { s0 } else { c })
+                } else {
+                    p
+                }
+            } else {
+                p
+            };
             let pat = to_pattern(&p);
             let substs = match guarded(|| ematch_all(&eg, &pat)) {
                 Ok(s) => s,
@@ -434,7 +478,29 @@ pub fn run(ctx: &mut Ctx) {
             o.push(Op::Query);
             ops = o;
         }
-        if rng.chance(1, 8) {
+        if rng.chance(1, 10) {
+            // nested binders and a free variable next to a binder, bodies that mention both variables
+            let var = |c: u32| ATerm { v: 2, fields: vec![CField::Slot(c)], children: vec![] };
+            let bin = |v: usize, a: ATerm, b: ATerm| ATerm { v, fields: vec![CField::App, CField::App], children: vec![a, b] };
+            let lam = |x: u32, b: ATerm| ATerm { v: 0, fields: vec![CField::Bind(x, Box::new(CField::App))], children: vec![b] };
+            let (a, b2, c) = (10u32, 14u32, 4u32);
+            let body = |rng: &mut Rng, x: u32, y: u32| match rng.below(3) {
+                0 => bin(1, var(x), var(y)),
+                1 => bin(14, var(y), var(x)),
+                _ => bin(4, var(x), bin(5, var(y), var(x))),
+            };
+            let mut o: Vec<Op> = Vec::new();
+            o.push(Op::Add(lam(a, lam(b2, body(&mut rng, a, b2)))));
+            o.push(Op::Add(bin(1, var(c), lam(b2, body(&mut rng, c, b2)))));
+            if rng.chance(1, 2) {
+                o.push(Op::Add(lam(a, lam(b2, var(b2)))));
+            }
+            if rng.chance(1, 2) {
+                o.push(Op::Add(bin(1, var(c), lam(b2, var(c)))));
+            }
+            o.push(Op::Query);
+            ops = o;
+        } else if rng.chance(1, 8) {
             // a class whose symmetry group is a proper subgroup of the symmetric group on its orbit (rotations of three slots,
             // or a double transposition of four) below binary nodes whose two children are related by a permutation inside /
             // outside that group: `(k ?a ?a)` must match the former and not the latter
